@@ -45,6 +45,7 @@ K_ADD_PARTIAL = "partial-pool-failure-in-on-add-discounted-host-left-down-withou
 K_UNKNOWN_DOWN = "host-of-unknown-state-marked-down-without-reconnector"
 K_ORPHAN = "reconnection-handler-completion-clears-the-slot-of-a-newer-handler-two-series"
 K_STALE_CLEANUP = "failed-on-up-of-a-removed-host-object-tears-down-the-readded-host-of-the-same-address"
+K_ONUP_OVERLAP = "on-up-past-its-membership-test-continues-after-a-concurrent-removal"
 K_ONUP_STUCK = "on-up-completion-callback-races-with-futures-set-host-never-marked-up"
 
 
@@ -96,12 +97,14 @@ def run_history(seed):
     rng = random.Random(seed)
     random.seed(seed)
     n_nodes = rng.choice([2, 3, 3])
-    family = rng.choices(['random', 'midconnect', 'updown', 'readd'], [45, 18, 22, 15])[0]
+    family = rng.choices(['random', 'midconnect', 'updown', 'readd', 'newhost'], [40, 16, 20, 12, 12])[0]
     n_sessions = rng.choice([0, 1, 1, 2, 2, 3])
     if family == 'updown':
         n_sessions = rng.choice([2, 2, 3])
     if family == 'readd':
         n_sessions = rng.choice([1, 1, 2])
+    if family == 'newhost':
+        n_sessions = rng.choice([1, 1, 2, 3])
     proto = rng.choice([4, 4, 3, 2])
     max_attempts = rng.choice([None, None, None, 2])
     n_events = rng.randint(4, 14)
@@ -172,6 +175,7 @@ def run_history(seed):
         def on_remove(self, host):
             notes.append((w.now, 'listener', 'remove', host.endpoint.address, id(host)))
             removed_at_log_index[id(host)] = len(sched_log())
+            removed_conn_mark[id(host)] = len(env.net.conns)
 
     def recording(base):
         class RecordingPolicy(base):
@@ -189,6 +193,8 @@ def run_history(seed):
 
             def on_add(self, host):
                 notes.append((w.now, 'policy', 'add', host.endpoint.address, id(host)))
+                added_conn_mark.setdefault(id(host), len(env.net.conns))      # connections created from here on belong to this host object
+                added_order.append((host.endpoint.address, id(host), len(env.net.conns)))
                 self._nested += 1
                 try:
                     return base.on_add(self, host)
@@ -205,6 +211,9 @@ def run_history(seed):
         return RecordingPolicy
 
     removed_at_log_index = {}        # id(host) -> length of cluster.scheduler.scheduled when listeners were told on_remove
+    removed_conn_mark = {}           # id(host) -> number of connections that existed when listeners were told on_remove(host)
+    added_order = []                 # (address, id(host), connections that existed) per policy on_add, in order
+    added_conn_mark = {}             # id(host) -> number of connections that existed when the policy was told on_add(host)
     seen_unknown = set()             # ids of host objects last seen with is_up None at a quiescent point (never marked up since)
     stray_seen = {}                  # id(host) -> first time a live handler was seen although the host was marked up
     cluster_box = []
@@ -278,6 +287,48 @@ def run_history(seed):
             cluster.set_core_connections_per_host(HostDistance.LOCAL, 1)
             cluster.set_max_connections_per_host(HostDistance.LOCAL, 2)
         cluster_box.append(cluster)
+        # observe the entry / exit order of Cluster.on_up and Cluster.on_remove per host object (instance attributes: the control connection,
+        # the scheduler and the reconnection handlers all reach them through the cluster object)
+        state_calls = []
+        removal_during_on_up_handling = set()
+        for name_ in ('on_up', 'on_remove'):
+            def make(orig_, name_=name_):
+                def watched(host, *a_, **kw_):
+                    if name_ == 'on_remove' and getattr(host, '_currently_handling_node_up', False):
+                        # an on_up for this host has queued its pool creations and waits for them: its handling is still under way
+                        removal_during_on_up_handling.add(id(host))
+                    state_calls.append((name_, 'enter', id(host)))
+                    try:
+                        return orig_(host, *a_, **kw_)
+                    finally:
+                        state_calls.append((name_, 'exit', id(host)))
+                watched.__name__ = name_
+                return watched
+            setattr(cluster, name_, make(getattr(cluster, name_)))
+
+        def on_up_overlapped_removal(hid):
+            # was an on_up(host) call under way while on_remove(host) ran (either one entered while the other had not returned yet)?
+            if hid in removal_during_on_up_handling:
+                return True
+            open_up = open_rm = 0
+            for name_, what_, h_ in state_calls:
+                if h_ != hid:
+                    continue
+                if name_ == 'on_up':
+                    if what_ == 'enter':
+                        if open_rm:
+                            return True
+                        open_up += 1
+                    else:
+                        open_up -= 1
+                else:
+                    if what_ == 'enter':
+                        if open_up:
+                            return True
+                        open_rm += 1
+                    else:
+                        open_rm -= 1
+            return False
         listener = Listener()
         cluster.register_listener(listener)
         sessions = []
@@ -320,6 +371,13 @@ def run_history(seed):
                 return False
             return any(n_[1] == 'policy' and n_[2] == 'down' and n_[3] == h_.endpoint.address and n_[4] != id(h_) for n_ in notes[idx[0] + 1:])
 
+        def had_a_pool_connection(h_):
+            # did any pool connection to this host object complete its handshake at the node since the object became a member?
+            # (also true when no pool connection was ever attempted for it - no live session: then there is no first pool connect that could fail)
+            mark_ = added_conn_mark.get(id(h_), 0)
+            mine_ = [c for c in env.net.conns if c.sim_creator == 'pool-init' and str(c.endpoint.address) == h_.endpoint.address and c.sim_id >= mark_]
+            return not mine_ or any(getattr(c, 'peer', None) is not None and c.peer.ready for c in mine_)
+
         def held_by_address(a_):
             return any((not hh.done) and hh.req['op'] == 'OPTIONS' and hh.node.address == a_ and not hh.conn.is_closed and hh.conn.sim_creator == 'reconnector'
                        for hh in env.net.held)
@@ -357,7 +415,8 @@ def run_history(seed):
                                                    'a_session_has_an_open_pool': any(s_._pools.get(h) is not None and not s_._pools.get(h).is_shutdown for s_ in sessions),
                                                    'last_handler_was_for_host_addition': last_handler_addition(id(h)), 'state_was_unknown_before_and_never_up_since': id(h) in seen_unknown,
                                                    'listeners_ever_told_add_or_up': any(n[1] == 'listener' and n[4] == id(h) and n[2] in ('add', 'up') for n in notes),
-                                                   'state_was_unknown_before_and_never_up_since': id(h) in seen_unknown}))
+                                                   'state_was_unknown_before_and_never_up_since': id(h) in seen_unknown,
+                                                   'host_object_had_a_connected_pool': had_a_pool_connection(h)}))
                     elif h.is_up and n_live and label != 'final':
                         stray_seen.setdefault(id(h), w.now)
                     elif h.is_up and n_live and label == 'final':
@@ -421,6 +480,18 @@ def run_history(seed):
                 script += [('advance', x, rng.choice([0.2, 0.5]))]
             script += [('release', x, None), ('settle', x, None), ('advance', x, 0.5)]
             script += [(None, None, None)] * rng.randint(0, 3)
+        elif family == 'newhost':
+            # a host is announced (NEW_NODE, or it appears in system.peers at a refresh) while it refuses connections or resets the pool's handshake;
+            # later it accepts: the host-addition path has to keep trying until the host is up with pools
+            x = rng.choice(others)
+            script = [('hide_refresh', x, None), ('settle', x, None)]
+            if rng.random() < 0.5:
+                script += [('node_off', x, None)]
+            else:
+                script += [('fail_pool', x, n_sessions * rng.choice([1, 2]))]
+            script += [(rng.choice(['show_refresh', 'new_node']), x, None), ('settle', x, None), ('advance', x, 1.1), ('settle', x, None),
+                       ('node_on', x, None), ('advance', x, 1.1), ('settle', x, None), ('advance', x, 1.1), ('settle', x, None)]
+            script += [(None, None, None)] * rng.randint(0, 3)
         elif family == 'readd':
             # a host goes down and is reconnected; while on_up's pool connections sit in their handshake the host is removed and the same address is
             # added again (a new Host object); then the old object's pool connections fail
@@ -451,7 +522,7 @@ def run_history(seed):
             a = rng.choice(addrs)
             arg = None
             ev = rng.choices(['kill', 'crash', 'revive', 'status_down', 'status_up', 'remove', 'new_node', 'hide_refresh', 'show_refresh', 'fail_pool',
-                              'advance', 'advance_long', 'hold_reconnect', 'release'], [3, 3, 3, 3, 3, 1, 2, 1, 2, 2, 4, 2, 1, 1])[0]
+                              'advance', 'advance_long', 'hold_reconnect', 'release', 'remove_racing'], [3, 3, 3, 3, 3, 1, 2, 1, 2, 2, 4, 2, 1, 1, 2])[0]
             if script is not None and script[step][0] is not None:
                 ev, a, arg = script[step]
             node = env.net.nodes[a]
@@ -465,6 +536,10 @@ def run_history(seed):
                 for s in sessions:
                     if h is not None:
                         request(s, h, 'reset')
+            elif ev == 'node_off':
+                node.up = False
+            elif ev == 'node_on':
+                node.up = True
             elif ev == 'hold_reconnect':
                 hold_reconn[a] = hold_reconn.get(a, 0) + (arg or 1)
             elif ev == 'release':
@@ -507,6 +582,15 @@ def run_history(seed):
                     if h is not None:
                         removed[id(h)] = (a, w.now)
                     push(F.body_event_topology('REMOVED_NODE', ip_bytes(a), 9042))
+            elif ev == 'remove_racing':
+                # the server announces the removal and a status change of the same node back to back: the handlers are queued behind each other
+                if a != addrs[0]:
+                    env.net.hidden_peers.add(a)
+                    evs = [F.body_event_topology('REMOVED_NODE', ip_bytes(a), 9042), F.body_event_status(rng.choice(['UP', 'UP', 'DOWN']), ip_bytes(a), 9042)]
+                    if rng.random() < 0.5:
+                        evs.reverse()
+                    for b_ in evs:
+                        push(b_)
             elif ev == 'new_node':
                 env.net.hidden_peers.discard(a)
                 push(F.body_event_topology('NEW_NODE', ip_bytes(a), 9042))
@@ -577,7 +661,7 @@ def run_history(seed):
                     viol.append(('host-not-up-at-final-quiescence', "host %s has is_up=%r although its node has been healthy for 37 virtual seconds" % (a, h.is_up),
                                  {'live_handlers': len(live.get(id(h), ())), 'handling_node_up_flag': h._currently_handling_node_up, 'sessions': n_sessions,
                                   'never_a_handler': last_handler_addition(id(h)) is None, 'last_handler_was_for_host_addition': last_handler_addition(id(h)),
-                                  'state_was_unknown_before_and_never_up_since': id(h) in seen_unknown,
+                                  'state_was_unknown_before_and_never_up_since': id(h) in seen_unknown, 'host_object_had_a_connected_pool': had_a_pool_connection(h),
                                   'listeners_ever_told_add_or_up': any(n[1] == 'listener' and n[4] == id(h) and n[2] in ('add', 'up') for n in notes),
                                   'reconnection_handler_set': h._reconnection_handler is not None}))
                 # what the observers were last told about this host object
@@ -597,6 +681,7 @@ def run_history(seed):
                                      {'who': who, 'handling_node_up_flag': h._currently_handling_node_up, 'live_handlers': len(live.get(id(h), ())), 'sessions': n_sessions,
                                       'last': last[-1][2], 'never_a_handler': last_handler_addition(id(h)) is None,
                                       'last_handler_was_for_host_addition': last_handler_addition(id(h)), 'state_was_unknown_before_and_never_up_since': id(h) in seen_unknown, 'reconnection_handler_set': h._reconnection_handler is not None,
+                                      'host_object_had_a_connected_pool': had_a_pool_connection(h),
                                       'listeners_ever_told_add_or_up': any(n[1] == 'listener' and n[4] == id(h) and n[2] in ('add', 'up') for n in notes)}))
                 if h.is_up and not ignored(h):
                     for si, s in enumerate(sessions):
@@ -648,6 +733,18 @@ def run_history(seed):
                         who, n[2], n[3], n[0], rm[hid][0]), {'who': who, 'handler_started_after_removal': handler_started_after_removal(hid),
                                                                'on_up_scheduled_by_a_status_event_around_the_removal': on_up_by_event}))
                     del rm[hid]
+        # ... and no session starts building a pool for it: no pool connection to its address is opened after the removal was announced and before
+        # the address becomes a member again (as a new host object)
+        for n in [x for x in notes if x[1] == 'listener' and x[2] == 'remove']:
+            lo = removed_conn_mark.get(n[4])
+            if lo is None:
+                continue
+            later_adds = [m_ for (a_, hid_, m_) in added_order if a_ == n[3] and hid_ != n[4] and m_ >= lo]
+            hi = min(later_adds) if later_adds else len(env.net.conns)
+            late = [c for c in env.net.conns[lo:hi] if c.sim_creator == 'pool-init' and str(c.endpoint.address) == n[3]]
+            if late:
+                viol.append(('pool-connection-to-removed-host', "a pool connection to removed host %s (connection %d) was opened at t=%.2f, after listeners had been told on_remove at t=%.2f" % (
+                    n[3], late[0].sim_id, late[0].sim_created_at, n[0]), {'connections': len(late), 'an_on_up_call_was_under_way_while_on_remove_ran': on_up_overlapped_removal(n[4])}))
         # removed hosts are never reconnected: after listeners were told on_remove(host), no attempt is scheduled any more by a handler of that host object
         # (by object, not by address: the address may be added again as a new Host while the removal is still being announced)
         for n in [x for x in notes if x[1] == 'listener' and x[2] == 'remove']:
@@ -686,21 +783,25 @@ def classify(v, info):
     if mech == 'down-host-without-reconnector' and d.get('sessions', 0) >= 2 and d.get('a_session_has_an_open_pool') and d.get('last_handler_was_for_host_addition') \
             and not d.get('host_reconnection_handler_set'):
         return K_ADD_PARTIAL
-    if mech == 'down-host-without-reconnector' and d.get('last_handler_was_for_host_addition') is None \
+    if mech == 'down-host-without-reconnector' and d.get('last_handler_was_for_host_addition') is None and d.get('host_object_had_a_connected_pool') \
             and (not d.get('listeners_ever_told_add_or_up') or d.get('state_was_unknown_before_and_never_up_since')) and not d.get('host_reconnection_handler_set'):
+        # (the known mechanism is a host of unknown state whose ESTABLISHED pool fails later; a host whose very first pool connect fails must get
+        # its host-addition reconnector and is not covered by this slug)
         return K_UNKNOWN_DOWN
     if mech == 'observer-not-told-up' and d.get('last') == 'down' and d.get('previous') == 'up' and d.get('previous_at_same_instant') and d.get('pools_needed', 0) >= 1:
         return K_STRAY           # same interleaving, the on_up finished completely before on_down told its observers
     if mech == 'two-live-reconnectors-for-one-host' and d.get('a_live_handler_lost_its_slot_to_another_handlers_completion'):
         return K_ORPHAN
     if mech in ('host-not-up-at-final-quiescence', 'observer-not-told-down') and d.get('never_a_handler') and not d.get('reconnection_handler_set') \
-            and d.get('last', 'add') == 'add' and ((not d.get('listeners_ever_told_add_or_up') and d.get('who', 'policy') == 'policy')
+            and d.get('host_object_had_a_connected_pool') and d.get('last', 'add') == 'add' and ((not d.get('listeners_ever_told_add_or_up') and d.get('who', 'policy') == 'policy')
                                                    or d.get('state_was_unknown_before_and_never_up_since')):
         return K_UNKNOWN_DOWN
     if mech in ('host-not-up-at-final-quiescence', 'observer-not-told-down') and d.get('last_handler_was_for_host_addition') and d.get('sessions', 0) >= 2 \
             and not d.get('listeners_ever_told_add_or_up') and not d.get('reconnection_handler_set') and d.get('live_handlers') == 0 \
             and d.get('who', 'policy') == 'policy' and d.get('last', 'add') == 'add':
         return K_ADD_PARTIAL
+    if mech == 'pool-connection-to-removed-host' and d.get('an_on_up_call_was_under_way_while_on_remove_ran'):
+        return K_ONUP_OVERLAP
     if mech == 'notified-up-after-remove' and (d.get('handler_started_after_removal') or d.get('on_up_scheduled_by_a_status_event_around_the_removal')):
         return K_REMOVED_RESTART
     if mech in ('removed-host-still-has-reconnector', 'removed-host-reconnected') and d.get('handler_started_after_removal'):
@@ -719,7 +820,7 @@ def run(ctx):
     shim.import_cluster()
     from vlib.run import Inconclusive
     from sim.world import WorldLimit, WorldHang
-    ctx.rule = ("a case is one seeded history from four families (random events / a host removed and its address added again as a new Host object while the old object's on_up pools are mid-connect and then fail / a host removed while a reconnection attempt for it is mid-connect, "
+    ctx.rule = ("a case is one seeded history from five families (random events / a host announced while its first pool connect fails, accepting later / a host removed and its address added again as a new Host object while the old object's on_up pools are mid-connect and then fail / a host removed while a reconnection attempt for it is mid-connect, "
                 "plain and host-addition reconnector / repeated down-up cycles with 2-3 sessions under priority schedules): 2-3 nodes, 0-3 sessions, protocol v4/v3/v2, reconnection schedule (unbounded / 2 attempts), 4-14 events from "
                 "{pool connection reset, node crash, node back, STATUS_CHANGE UP/DOWN, TOPOLOGY_CHANGE REMOVED_NODE/NEW_NODE, hide/show in system.peers + "
                 "refresh, next pool connection fails, time passes}, schedule; distinct by event-order signature of the world trace; non-trivial = at "
